@@ -1,0 +1,5 @@
+//go:build !verif
+
+package jsonata
+
+func verifYield(site string, name string) {}
